@@ -554,6 +554,58 @@ def ref_order(K=1):
     return h
 
 
+NUMBERS = [
+    # (source literal, expected kind and value): the literal kind is part of the model; nothing is rounded
+    ('0', ('int', 0)), ('7', ('int', 7)), ('007', ('int', 7)), ('12345678901234567890', ('int', 12345678901234567890)),
+    ('9007199254740993', ('int', 9007199254740993)), ('2.0', ('float', 2.0)), ('0.0', ('float', 0.0)), ('10.50', ('float', 10.5)),
+    ('3.25', ('float', 3.25)), ('123456789.125', ('float', 123456789.125)), ('1.00', ('float', 1.0)), ('0.1', ('float', 0.1)),
+]
+
+
+def numbers(case='same'):
+    """numeric defaults: integer literals stay integers (of any size), literals with a fraction part stay floats (also n.0)"""
+    args = [('lit', IntRange(0, len(NUMBERS) - 1)), ('second', 'bool'), ('multi', 'bool')]
+
+    def build(a):
+        src, exp = NUMBERS[a['lit']]
+        sep = ',\n    ' if a['multi'] else ', '
+        doc = ('Table t {\n  c int [' + ('\n    ' if a['multi'] else '') + 'not null' + sep + _case('default', case) + ': ' + src
+               + ('\n  ' if a['multi'] else '') + ']\n' + ('  d numeric [default: ' + src + ', unique]\n' if a['second'] else '') + '}\n')
+        cols = [('col', 'c', ('str', 'int'), False, False, True, False, exp, '', None, ())]
+        if a['second']:
+            cols.append(('col', 'd', ('str', 'numeric'), False, True, False, False, exp, '', None, ()))
+        return doc, cols
+
+    def body(a):
+        doc, cols = build(a)
+        try:
+            db = docs.parse(doc)
+        except Exception:
+            return 'well-formed document rejected'
+        reached()
+        got = content(db)[2][0][8]
+        if len(got) != len(cols):
+            return 'wrong number of columns'
+        for g, c in zip(got, cols):
+            if g[7] != c[7]:
+                return 'numeric default stored with another kind or value than the literal declares'
+            if g != c:
+                return 'column differs from what the document declares'
+        return ''
+
+    def describe(a):
+        doc, cols = build(a)
+        try:
+            got = [c[7] for c in content(docs.parse(doc))[2][0][8]]
+        except Exception as e:
+            got = repr(e)
+        return {'document': doc, 'expected_defaults': [c[7] for c in cols], 'stored_defaults': got}
+
+    h = Harness(body, args, describe=describe, bounds={'literals': [n for n, _ in NUMBERS]})
+    h.build = build
+    return h
+
+
 def instances(tier):
     out = []
 
@@ -642,4 +694,5 @@ def instances(tier):
         add('others/upper/m2', 'others', {'case': 'upper', 'K': K, 'fix': omasks[2]}, T1)
     add('equivalence', 'equivalence', {'K': 1 if quick else 2}, T1)
     add('ref_order', 'ref_order', {'K': 1 if quick else 2}, T1)
+    add('numbers', 'numbers', {'case': 'mixed'}, T1)
     return out
